@@ -1,6 +1,8 @@
 import Tup.DrvUtil
 import Tup.Model.CellSize
 import Tup.Spec.CellSize
+import Tup.Model.Config
+import Tup.Spec.Config
 /-!
   Driver for group Misc (C15 sizes, C17 configuration).
 
@@ -11,6 +13,18 @@ import Tup.Spec.CellSize
     c15 cell <env…>                                 -> `w h`
     c15 lim  argC cfgC termC argR cfgR termR        -> `limC limR`           (specification)
     c15 spec Wn Wd Hn Hd cw ch cols rows limC limR en ed c r -> `ok` | `wf0` | `bounds,no_unused,…`
+
+  C17 requests.  Values travel as
+    scalar := S<hex utf8>; | I<int>; | F<int>/<nat>; | B0 | B1 | N | O<hex class name>;
+    value  := scalar | L scalar* ] | T scalar* ] | P<color_bits>,<0|1>; | U<begin>,<end>; | M<d|f|t|s>
+    entries := - | name=value|name=value|…
+    c17 ctor <stateDir hex> <tmux 0|1> <file: _ | pathhex:entries> <env entries> <kwargs entries> <overrides entries>
+             -> `ok name=value@<provenance hex>|…` | `err key <hex>` | `err keys` | `err invalid <option>`
+    c17 norm <stateDir hex> <name> <value>   -> `ok value` | `err …`
+    c17 dump <entries>                       -> entries                 (`dumpVal` of every value)
+    c17 winner <file> <env> <kwargs> <overrides>  (0|1 each)  -> layer | `default`       (specification)
+    c17 prov <layer|default> <option> <file path hex|-> <kw label hex|_> <ov label hex|_> <provenance hex> -> 0|1 (specification)
+    c17 text <value>                         -> `S<hex>;` | `_`                            (specification)
 -/
 namespace Tup.Drv.Misc
 open Tup Tup.CellSize
@@ -75,8 +89,155 @@ def handleC15 : List String → String
       | _, _, _, _, _, _, _, _ => "bad"
   | _ => "bad"
 
+/-! ### C17 -/
+section C17
+open Tup.Config
+
+def hexOfString (s : String) : String := toHex s.toUTF8.data.toList
+def stringOfHex (h : String) : Option String :=
+  if h = "" then some "" else
+  match ofHexAux h.toList with
+  | some bs => String.fromUTF8? (ByteArray.mk bs.toArray)
+  | none => none
+
+def takeUntil (stop : Char) : List Char → List Char × List Char
+  | [] => ([], [])
+  | c :: cs => if c = stop then ([], cs) else let (a, b) := takeUntil stop cs; (c :: a, b)
+
+def parseScalar : List Char → Option (Scalar × List Char)
+  | 'S' :: cs => let (h, r) := takeUntil ';' cs; (stringOfHex (String.ofList h)).map fun s => (.str s, r)
+  | 'O' :: cs => let (h, r) := takeUntil ';' cs; (stringOfHex (String.ofList h)).map fun s => (.other s, r)
+  | 'I' :: cs => let (h, r) := takeUntil ';' cs; (String.ofList h).toInt?.map fun i => (.int i, r)
+  | 'F' :: cs =>
+      let (h, r) := takeUntil ';' cs
+      let (n, d) := takeUntil '/' h
+      match (String.ofList n).toInt?, (String.ofList d).toNat? with
+      | some n, some d => some (.float ⟨n, d⟩, r)
+      | _, _ => none
+  | 'B' :: '0' :: r => some (.bool false, r)
+  | 'B' :: '1' :: r => some (.bool true, r)
+  | 'N' :: r => some (.none, r)
+  | _ => none
+
+def parseScalars (fuel : Nat) (cs : List Char) : Option (List Scalar × List Char) :=
+  match fuel with
+  | 0 => none
+  | fuel + 1 =>
+    match cs with
+    | ']' :: r => some ([], r)
+    | _ => match parseScalar cs with
+      | some (x, r) => (parseScalars fuel r).map fun (xs, r') => (x :: xs, r')
+      | none => none
+
+def parseVal (cs : List Char) : Option Val :=
+  match cs with
+  | 'L' :: r => match parseScalars (r.length + 1) r with | some (xs, []) => some (.list xs) | _ => none
+  | 'T' :: r => match parseScalars (r.length + 1) r with | some (xs, []) => some (.tuple xs) | _ => none
+  | 'P' :: r =>
+      let (a, r) := takeUntil ',' r
+      let (b, r) := takeUntil ';' r
+      match (String.ofList a).toNat?, r with
+      | some cb, [] => some (.space ⟨cb, String.ofList b = "1"⟩)
+      | _, _ => none
+  | 'U' :: r =>
+      let (a, r) := takeUntil ',' r
+      let (b, r) := takeUntil ';' r
+      match (String.ofList a).toNat?, (String.ofList b).toNat?, r with
+      | some x, some y, [] => some (.sub ⟨x, y⟩)
+      | _, _, _ => none
+  | ['M', 'd'] => some (.medium .direct)
+  | ['M', 'f'] => some (.medium .file)
+  | ['M', 't'] => some (.medium .tempFile)
+  | ['M', 's'] => some (.medium .sharedMemory)
+  | _ => match parseScalar cs with | some (x, []) => some (.sc x) | _ => none
+
+def scalarStr : Scalar → String
+  | .str s => s!"S{hexOfString s};"
+  | .other s => s!"O{hexOfString s};"
+  | .int i => s!"I{i};"
+  | .float f => s!"F{f.num}/{f.den};"
+  | .bool b => if b then "B1" else "B0"
+  | .none => "N"
+
+def valStr : Val → String
+  | .sc x => scalarStr x
+  | .list xs => "L" ++ String.join (xs.map scalarStr) ++ "]"
+  | .tuple xs => "T" ++ String.join (xs.map scalarStr) ++ "]"
+  | .space s => s!"P{s.colorBits},{boolStr s.use3rd};"
+  | .sub u => s!"U{u.b},{u.e};"
+  | .medium m => "M" ++ m.letter
+
+def parseEntries (t : String) : Option (List (String × Val)) :=
+  if t = "-" then some []
+  else (t.splitOn "|").mapM fun kv =>
+    match kv.splitOn "=" with
+    | [k, v] => (parseVal v.toList).map fun x => (k, x)
+    | _ => none
+
+def entriesStr (l : List (String × Val)) : String :=
+  if l.isEmpty then "-" else "|".intercalate (l.map fun (k, v) => s!"{k}={valStr v}")
+
+def cerrStr : CErr → String
+  | .unknownKey k => s!"err key {hexOfString k}"
+  | .unknownKeys => "err keys"
+  | .invalid o => s!"err invalid {o}"
+
+def layerOf (s : String) : Option (Option Spec.Config.Layer) :=
+  if s = "default" then some none
+  else if s = "overrides" then some (some .overrides)
+  else if s = "kwargs" then some (some .kwargs)
+  else if s = "env" then some (some .env)
+  else if s = "file" then some (some .file)
+  else none
+
+def optLabel (s : String) : Option (Option String) := if s = "_" then some none else (stringOfHex s).map some
+
+def handleC17 : List String → String
+  | ["ctor", sd, tmux, file, env, kw, ov] =>
+      match stringOfHex sd, parseEntries env, parseEntries kw, parseEntries ov with
+      | some sd, some env, some kw, some ov =>
+          let file? : Option (Option (String × List (String × Val))) :=
+            if file = "_" then some none
+            else match file.splitOn ":" with
+              | [p, es] => match stringOfHex p, parseEntries es with
+                | some p, some es => some (some (p, es))
+                | _, _ => none
+              | _ => none
+          let envS := env.filterMap fun (k, v) => match v with | .sc (.str s) => some (k, s) | _ => none
+          match file? with
+          | none => "bad"
+          | some file? =>
+            match construct sd (tmux = "1") { file := file?, env := envS, kwargs := kw, overrides := ov } with
+            | .error e => cerrStr e
+            | .ok c => "ok " ++ "|".intercalate (c.map fun e => s!"{e.name}={valStr e.val}@{hexOfString (c.provenance sd e.name)}")
+      | _, _, _, _ => "bad"
+  | ["norm", sd, name, v] =>
+      match stringOfHex sd, parseVal v.toList with
+      | some sd, some v => (match normalize sd name v with | .ok x => s!"ok {valStr x}" | .error e => cerrStr e)
+      | _, _ => "bad"
+  | ["dump", es] =>
+      match parseEntries es with
+      | some es => entriesStr (es.map fun (k, v) => (k, dumpVal v))
+      | none => "bad"
+  | ["winner", f, e, k, o] =>
+      match Spec.Config.winner { file := f = "1", env := e = "1", kwargs := k = "1", overrides := o = "1" } with
+      | some l => l.str
+      | none => "default"
+  | ["prov", layer, opt, path, kwl, ovl, p] =>
+      match layerOf layer, stringOfHex (if path = "-" then "" else path), optLabel kwl, optLabel ovl, stringOfHex p with
+      | some l, some path, some kwl, some ovl, some p => boolStr (Spec.Config.provenanceNames l opt path kwl ovl p)
+      | _, _, _, _, _ => "bad"
+  | ["text", v] =>
+      match parseVal v.toList with
+      | some v => (match Spec.Config.textOf v with | some s => s!"S{hexOfString s};" | none => "_")
+      | none => "bad"
+  | _ => "bad"
+
+end C17
+
 def handle : List String → String
   | "c15" :: rest => handleC15 rest
+  | "c17" :: rest => handleC17 rest
   | _ => "bad"
 
 end Tup.Drv.Misc
